@@ -1598,7 +1598,7 @@ class SemanticAnalyzer(
         items = defn.items
         first_item = defn.items[0]
         assert isinstance(first_item, Decorator)
-        deleted_items = []
+        deleted_items: list[int] = []
         bare_setter_type = None
         func_name = first_item.func.name
         for i, item in enumerate(items[1:]):
